@@ -671,12 +671,23 @@ def _int_op(x, y, op):
     raise ModelGap(f'int op {op}')
 
 
+def rdiv(x, y):
+    """x / y over the reals, written as x * (1/y) for a non-constant divisor so that both
+    the code's and an oracle's quotients are polynomials in the same reciprocal term
+    (z3 takes tens of seconds to equate a*(1/b) with a/b otherwise).  Equivalent for y != 0;
+    division by zero is outside the real model anyway."""
+    ys = z3.simplify(y)
+    if z3.is_rational_value(ys) or z3.is_int_value(ys):
+        return x / y
+    return x * (z3.RealVal(1) / ys)
+
+
 def _real_op(x, y, op):
     S = lambda e: Sym(z3.simplify(e))
     if op == 'add': return S(x + y)
     if op == 'sub': return S(x - y)
     if op == 'mul': return S(x * y)
-    if op == 'div': return S(x / y)
+    if op == 'div': return S(rdiv(x, y))
     if op == 'eq': return S(x == y)
     if op == 'ne': return S(x != y)
     if op == 'lt': return S(x < y)
